@@ -222,6 +222,32 @@ func c16Property(rt *rapid.T, ev *evid.Rec) {
 			}
 		}
 	}
+	// the printed schema (config.DDL, `--print-schema`) applied to an empty database gives every
+	// table the columns of all its integrations as well
+	{
+		pg, _ := env()
+		name := fmt.Sprintf("ddl%d", dbSeq.Add(1))
+		ddb := pg.NewDB(name)
+		for _, stmt := range config.DDL(w.conf) {
+			if err := ddb.Exec(stmt); err != nil {
+				pg.DropDB(name)
+				rt.Fatalf("VERIF-VIOLATION property=C16 a statement of the printed schema fails on an empty database: %v\n %s\n %s", err, stmt, desc())
+			}
+		}
+		for _, d := range decls {
+			have := map[string]bool{}
+			for _, c := range ddb.TableCols(d.Table) {
+				have[c.Name] = true
+			}
+			for _, c := range d.WithRequired().Columns {
+				if !have[c.Name] {
+					pg.DropDB(name)
+					rt.Fatalf("VERIF-VIOLATION property=C16 the printed schema gives table %s no column %s, which integration %s writes\n %s", d.Table, c.Name, d.Name, desc())
+				}
+			}
+		}
+		pg.DropDB(name)
+	}
 	rowsPer := map[string]int{}
 	for round := 0; round < nblocks+3; round++ {
 		for _, p := range w.Pairs {
